@@ -205,25 +205,29 @@ def _range_comp(node, roles, what):
 def _find_slices(fn, roles):
     """the comprehension [kernel[s:e] for s, e in zip(A, B)] -> (node, A, B)"""
     hits = []
-    for n in ast.walk(fn):
-        if not isinstance(n, (ast.ListComp, ast.GeneratorExp)):
+    sc = roles.sc
+    views = [U.comp_view(n, sc) for n in ast.walk(fn) if isinstance(n, (ast.ListComp, ast.GeneratorExp))]
+    views += [U.comp_view(ast.Name(id=nm, ctx=ast.Load()), sc) for nm, b in sc.bind.items()
+              if len(b) == 1 and b[0][0] == "assign" and isinstance(b[0][1], (ast.List, ast.Call))]   # append loops
+    for c in views:
+        if c is None:
             continue
-        el = n.elt
+        el = c.elt
         if not (isinstance(el, ast.Subscript) and roles.is_kernel(el.value) and isinstance(el.slice, ast.Slice)):
             continue
         sl = el.slice
-        g = n.generators
-        it = roles.sc.deref(g[0].iter) if len(g) == 1 else None
-        if (len(g) == 1 and not g[0].ifs and sl.step is None
+        it = sc.deref(c.iter)
+        if (not c.ifs and sl.step is None
                 and isinstance(it, ast.Call) and isinstance(it.func, ast.Name) and it.func.id == "zip"
                 and len(it.args) == 2 and not it.keywords
-                and isinstance(g[0].target, ast.Tuple) and len(g[0].target.elts) == 2
-                and all(isinstance(x, ast.Name) for x in g[0].target.elts)
+                and isinstance(c.target, ast.Tuple) and len(c.target.elts) == 2
+                and all(isinstance(x, ast.Name) for x in c.target.elts)
                 and isinstance(sl.lower, ast.Name) and isinstance(sl.upper, ast.Name)
-                and [sl.lower.id, sl.upper.id] == [x.id for x in g[0].target.elts]):
-            hits.append((n, it.args[0], it.args[1]))
+                and [sl.lower.id, sl.upper.id] == [x.id for x in c.target.elts]):
+            if not any(h[0] is c.node for h in hits):
+                hits.append((c.node, it.args[0], it.args[1]))
         else:
-            raise TranslateError("slices of the kernel are not [kernel[s:e] for s, e in zip(starts, ends)] (line %d)" % n.lineno)
+            raise TranslateError("slices of the kernel are not [kernel[s:e] for s, e in zip(starts, ends)] (line %d)" % c.node.lineno)
     if len(hits) != 1:
         raise TranslateError("expected one [kernel[s:e] for s, e in zip(starts, ends)], found %d" % len(hits))
     return hits[0]
